@@ -205,7 +205,7 @@ def expect_endo(q, k, mu, bound, odd=False):
 
 
 SPLIT_INT = ["gf25519", "gf255e", "gf255s", "gfp256", "sc25519", "scp256", "scsecp", "scjq255e", "scjq255s", "scgls254",
-             "mi_25519", "mi_spec1", "mi_spec2", "mi_spec3", "mi_193"]
+             "mi_25519", "mi_spec1", "mi_spec2", "mi_spec3", "mi_193", "mi_194s", "mi_194d", "mi_194h"]
 SPLIT_BYTES = ["sc448", "g127", "g192", "g256", "g25519", "g320", "g384", "g512"]
 
 
